@@ -259,3 +259,20 @@ Qed.
 
 Lemma firstn_len {A} (l : list A) n : length l = n -> firstn n l = l.
 Proof. intros <-. apply firstn_all. Qed.
+
+Lemma lookup_app_some {A} (l r : list (string * A)) k v : lookup k l = Some v -> lookup k (l ++ r)%list = Some v.
+Proof. induction l as [|[k' v'] l IH]; cbn; [discriminate|]. destruct (String.eqb k k'); [trivial|exact IH]. Qed.
+
+Lemma lookup_remove_other (l : list (string * pv)) k k' : k <> k' -> lookup k (dict_remove l k') = lookup k l.
+Proof.
+  intros Hn. induction l as [|[k2 v2] l IH]; cbn; [reflexivity|].
+  destruct (String.eqb_spec k' k2) as [->|Hn2]; cbn.
+  - destruct (String.eqb_spec k k2); [contradiction|reflexivity].
+  - destruct (String.eqb_spec k k2); [reflexivity|exact IH].
+Qed.
+Lemma remove_names_subset (l : list (string * pv)) k k' : existsb (String.eqb k) (map fst l) = false ->
+  existsb (String.eqb k) (map fst (dict_remove l k')) = false.
+Proof.
+  induction l as [|[k2 v2] l IH]; cbn; [reflexivity|]. intros H. apply orb_false_iff in H. destruct H as [H1 H2].
+  destruct (String.eqb k' k2); cbn; [exact H2|]. rewrite H1. cbn. auto.
+Qed.
